@@ -157,6 +157,129 @@ def imag_sign(expr, env):
     return (1 if val.imag > 0 else -1), abs(mag)
 
 
+
+# ------------------------------------------------------------------------------------------------
+# path-specialised sequential symbolic evaluation (renamed locals, aliases, hoisted factors, `x if c else y`, if/else)
+# ------------------------------------------------------------------------------------------------
+def flatten_mul(e):
+    """factors of a product, in any association"""
+    if isinstance(e, ast.BinOp) and isinstance(e.op, ast.Mult):
+        return flatten_mul(e.left) + flatten_mul(e.right)
+    return [e]
+
+
+def seq_env(stmts, assume=None, stop=(), env=None, on_stmt=None):
+    """Walk statements in source order and return {local name: defining expression} in which every EARLIER local has been
+    substituted (so renamed locals, aliases, hoisted common factors and re-assignments of a parameter such as `wvl = wvl / 1e3` are
+    followed).  `assume(test_node)` -> True / False decides `if` statements and conditional expressions (None: undecided, the
+    branches are merged and a name they define differently becomes unknown).  Names in `stop`, and names unpacked from a generator
+    expression, stay opaque.  Augmented assignments fold into the expression (`E *= n` -> `E * n`).  `try/except` handlers are
+    walked (cache-miss bodies).  `on_stmt(stmt, env)` is called before each statement is processed."""
+    env = dict(env or {})
+    opaque = set(stop)
+
+    class Sub(ast.NodeTransformer):
+        def visit_Name(self, node):
+            if isinstance(node.ctx, ast.Load) and node.id in env and node.id not in opaque:
+                return ast.parse(u(env[node.id]), mode='eval').body
+            return node
+
+        def visit_IfExp(self, node):
+            d = assume(node.test) if assume else None
+            if d is True:
+                return self.visit(node.body)
+            if d is False:
+                return self.visit(node.orelse)
+            return self.generic_visit(node)
+
+    def sub(e):
+        return Sub().visit(ast.parse('(' + u(e) + ')', mode='eval').body)
+
+    def run(body):
+        nonlocal env
+        for st in body:
+            if on_stmt:
+                on_stmt(st, env)
+            if isinstance(st, ast.Assign) and len(st.targets) == 1:
+                t = st.targets[0]
+                if isinstance(t, ast.Name):
+                    if t.id not in opaque:
+                        env[t.id] = sub(st.value)
+                elif isinstance(t, ast.Tuple) and all(isinstance(x, ast.Name) for x in t.elts):
+                    if isinstance(st.value, ast.Tuple) and len(st.value.elts) == len(t.elts):
+                        vals = [sub(v) for v in st.value.elts]
+                        for x, v in zip(t.elts, vals):
+                            if x.id not in opaque:
+                                env[x.id] = v
+                    elif isinstance(st.value, ast.GeneratorExp):
+                        for x in t.elts:
+                            opaque.add(x.id)
+                            env.pop(x.id, None)
+                    else:
+                        v = sub(st.value)
+                        for k, x in enumerate(t.elts):
+                            if x.id not in opaque:
+                                env[x.id] = ast.Subscript(value=v, slice=ast.Constant(value=k), ctx=ast.Load())
+            elif isinstance(st, ast.AugAssign) and isinstance(st.target, ast.Name):
+                nm = st.target.id
+                if nm in env and nm not in opaque:
+                    env[nm] = ast.BinOp(left=env[nm], op=st.op, right=sub(st.value))
+            elif isinstance(st, ast.If):
+                d = assume(st.test) if assume else None
+                if d is True:
+                    run(st.body)
+                elif d is False:
+                    run(st.orelse)
+                else:
+                    before = dict(env)
+                    run(st.body)
+                    e1 = env
+                    env = dict(before)
+                    run(st.orelse)
+                    e2 = env
+                    env = {k: v for k, v in e1.items() if k in e2 and u(e2[k]) == u(v)}
+            elif isinstance(st, ast.Try):
+                run(st.body)
+                for h in st.handlers:
+                    run(h.body)
+            elif isinstance(st, (ast.For, ast.While, ast.With)):
+                for n in ast.walk(st):          # anything assigned inside a loop is unknown afterwards
+                    if isinstance(n, ast.Name) and isinstance(n.ctx, ast.Store):
+                        env.pop(n.id, None)
+    run(stmts)
+    return env
+
+
+def cond_def(fn, name):
+    """`name = a if test else b`  or  `if test: name = a / else: name = b`  ->  (test, a, b) as source texts without blanks"""
+    for st in fn.body:
+        if isinstance(st, ast.Assign) and u(st.targets[0]) == name and isinstance(st.value, ast.IfExp):
+            v = st.value
+            return u(v.test).replace(' ', ''), u(v.body).replace(' ', ''), u(v.orelse).replace(' ', '')
+        if isinstance(st, ast.If) and len(st.body) == 1 and len(st.orelse) == 1 and \
+                all(isinstance(x, ast.Assign) and u(x.targets[0]) == name for x in (st.body[0], st.orelse[0])):
+            return (u(st.test).replace(' ', ''), u(st.body[0].value).replace(' ', ''), u(st.orelse[0].value).replace(' ', ''))
+    raise Untranslatable(f'{name} is not defined by a two-way choice')
+
+
+def strip_i_pi(e):
+    """the coefficient of (+-)i*pi (or 2*i*pi) in a product: imaginary literal -> 1 (its sign and magnitude are read separately by
+    imag_sign), np.pi -> 1"""
+    class Strip(ast.NodeTransformer):
+        def visit_Constant(self, node):
+            return ast.Constant(value=1) if isinstance(node.value, complex) else node
+
+        def visit_UnaryOp(self, node):
+            self.generic_visit(node)
+            if isinstance(node.op, ast.USub) and isinstance(node.operand, ast.Constant) and node.operand.value == 1:
+                return ast.Constant(value=1)
+            return node
+
+        def visit_Attribute(self, node):
+            return ast.Constant(value=1) if u(node) == 'np.pi' else node
+    return Strip().visit(ast.parse('(' + u(e) + ')', mode='eval').body)
+
+
 # ------------------------------------------------------------------------------------------------
 def generate(repo, pid='C01', extra_imports=(), extra_opens=(), extra=None, skip=()):
     """pid/extra/skip: tools/gen_c02.py re-emits the items IT NEEDS into `Generated.C02` and appends its own"""
@@ -178,48 +301,54 @@ def generate(repo, pid='C01', extra_imports=(), extra_opens=(), extra=None, skip
         params = [a.arg for a in fn.args.args]
         if params[:5] != ['N', 'M', 'K', 'shift', 'alpha']:
             raise Untranslatable(f'parameters of _prepare_czt_basis: {params}')
-        env = {'N': '(n : Int)', 'M': '(M : Int)', 'K': '(L : Int)'}
-        tr = Tr(env)
-        start = tr.expr(find_assign(fn, 'start'))
-        tr2 = Tr({**env, 'start': 'st'})
-        js = find_assigns(fn, 'j')
-        if len(js) != 2:
-            raise Untranslatable('expected two assignments to j')
-        for j in js:
-            if not (isinstance(j, ast.Call) and u(j.func).endswith('arange') and len(j.args) >= 2):
-                raise Untranslatable(f'j is not an arange: {u(j)}')
-        # slice writes to h, in source order
-        writes = []
-        for n in sorted((x for x in ast.walk(fn) if isinstance(x, ast.Assign)), key=lambda x: x.lineno):
-            t = n.targets[0]
-            if isinstance(t, ast.Subscript) and u(t.value) == 'h' and isinstance(t.slice, ast.Slice):
-                if t.slice.step is not None:
-                    raise Untranslatable('strided write to h')
-                lo = tr2.expr(t.slice.lower) if t.slice.lower is not None else '(0 : Int)'
-                hi = tr2.expr(t.slice.upper) if t.slice.upper is not None else '(L : Int)'
-                writes.append((n.lineno, lo, hi, n.value))
-        if len(writes) != 3:
-            raise Untranslatable(f'expected three slice writes to h, found {len(writes)}')
-        (l1, h1lo, h1hi, v1), (l2, h2lo, h2hi, v2), (l3, zlo, zhi, v3) = writes
-        if not (isinstance(v3, ast.Constant) and v3.value == 0):
-            raise Untranslatable('third write to h is not the zero fill')
-        for v in (v1, v2):
-            if u(v) not in ('np.pi * (j * j)', 'np.pi * j * j', 'np.pi * j ** 2', 'np.pi * (j ** 2)'):
-                raise Untranslatable(f'h segment value {u(v)}')
-        # the exponential must sit between the segment writes and the zero fill
-        hexp = [n for n in ast.walk(fn) if isinstance(n, ast.Assign) and u(n.targets[0]) == 'h'
-                and isinstance(n.value, ast.Call) and u(n.value.func).endswith('exp')]
-        if len(hexp) != 1 or not (l2 < hexp[0].lineno < l3):
-            raise Untranslatable('h = exp(...) is not between the segment writes and the zero fill')
-        j1lo, j1hi = tr2.expr(js[0].args[0]), tr2.expr(js[0].args[1])
-        j2lo, j2hi = tr2.expr(js[1].args[0]), tr2.expr(js[1].args[1])
+        tr = Tr({'N': '(n : Int)', 'M': '(M : Int)', 'K': '(L : Int)'})
+        # the kernel vector: the array whose FFT is returned first
+        (ret,) = find_returns(fn)
+        if not (isinstance(ret, ast.Tuple) and len(ret.elts) == 3 and all(isinstance(x, ast.Name) for x in ret.elts)):
+            raise Untranslatable(f'return value {u(ret)}')
+        Hn = ret.elts[0].id
+        hv = [v for v in find_assigns(fn, Hn) if isinstance(v, ast.Call) and u(v.func).split('.')[-1] == 'fft' and v.args
+              and isinstance(v.args[0], ast.Name)]
+        if len(hv) != 1:
+            raise Untranslatable(f'{Hn} is not the fft of a named vector')
+        hname = hv[0].args[0].id
+        writes = []          # (kind, lo, hi, arange-or-None) in source order; locals are followed as of each statement
+        state = {'exp_seen': False}
+
+        def on_stmt(st, env):
+            if isinstance(st, ast.Assign) and len(st.targets) == 1:
+                t = st.targets[0]
+                if isinstance(t, ast.Subscript) and isinstance(t.value, ast.Name) and t.value.id == hname and isinstance(t.slice, ast.Slice):
+                    if t.slice.step is not None:
+                        raise Untranslatable('strided write to the kernel vector')
+                    sub_ = lambda e: Subst(env).visit(ast.parse(u(e), mode='eval').body)
+                    lo = tr.expr(resolve(sub_(t.slice.lower), {})) if t.slice.lower is not None else '(0 : Int)'
+                    hi = tr.expr(resolve(sub_(t.slice.upper), {})) if t.slice.upper is not None else '(L : Int)'
+                    val = sub_(st.value)
+                    if isinstance(val, ast.Constant) and val.value == 0:
+                        writes.append(('zero', lo, hi, None, state['exp_seen']))
+                        return
+                    fac = flatten_mul(val)
+                    ar = [x for x in fac if isinstance(x, ast.Call) and u(x.func).endswith('arange') and len(x.args) >= 2]
+                    pis = [x for x in fac if u(x) == 'np.pi']
+                    if len(fac) != 3 or len(ar) != 2 or len(pis) != 1 or u(ar[0]) != u(ar[1]):
+                        raise Untranslatable(f'kernel segment value is not pi * j * j: {u(st.value)}')
+                    writes.append(('seg', lo, hi, (tr.expr(ar[0].args[0]), tr.expr(ar[0].args[1])), state['exp_seen']))
+                elif isinstance(t, ast.Name) and t.id == hname and isinstance(st.value, ast.Call) and u(st.value.func).endswith('exp'):
+                    state['exp_seen'] = True
+        seq_env(fn.body, stop={hname}, on_stmt=on_stmt)
+        segs = [w for w in writes if w[0] == 'seg']
+        zeros = [w for w in writes if w[0] == 'zero']
+        if len(segs) != 2 or len(zeros) != 1 or any(w[4] for w in segs) or not zeros[0][4]:
+            raise Untranslatable('expected two segment writes before the exponential and one zero fill after it')
+        (_, h1lo, h1hi, (j1lo, j1hi), _), (_, h2lo, h2hi, (j2lo, j2hi), _) = segs
+        _, zlo, zhi, _, _ = zeros[0]
         return (f'def cztGlueGen (n M L : Nat) : CztGlue :=\n'
-                f'  let st : Int := {start}\n'
-                f'  {{ start := st, j1Lo := {j1lo}, h1Lo := {h1lo}, h1Hi := {h1hi},\n'
+                f'  {{ start := -({j1lo}), j1Lo := {j1lo}, h1Lo := {h1lo}, h1Hi := {h1hi},\n'
                 f'    j2Lo := {j2lo}, h2Lo := {h2lo}, h2Hi := {h2hi}, zLo := {zlo}, zHi := {zhi} }}\n'
                 f'/-- upper bounds of the two `arange`s (their lengths must match the slices they are written to) -/\n'
-                f'def cztJ1Hi (n M L : Nat) : Int :=\n  let st : Int := {start}\n  {j1hi}\n'
-                f'def cztJ2Hi (n M L : Nat) : Int :=\n  let st : Int := {start}\n  {j2hi}')
+                f'def cztJ1Hi (n M L : Nat) : Int := {j1hi}\n'
+                f'def cztJ2Hi (n M L : Nat) : Int := {j2hi}')
     g.item('czt.glue', 'prysm/fttools.py:_prepare_czt_basis', lambda: get_def(ft, '_prepare_czt_basis'), czt_glue,
            f'def cztGlueGen (n M L : Nat) : CztGlue := {M}.cztGlue n M L\n'
            f'def cztJ1Hi (n M L : Nat) : Int := ({M}.cztGlue n M L).j1Lo + M\n'
@@ -228,12 +357,29 @@ def generate(repo, pid='C01', extra_imports=(), extra_opens=(), extra=None, skip
     def czt_signs():
         fn = get_def(ft, '_prepare_czt_basis')
         env = local_env(fn)
-        if u(env.get('m')) != 'fftrange(M, dtype=dtype)' or u(env.get('n')) != 'fftrange(N, dtype=dtype)':
-            raise Untranslatable('m / n are not fftrange(M) / fftrange(N)')
-        s_out = sign_of_augassign(fn, 'm', 'shift')
-        s_in = sign_of_augassign(fn, 'n', 'shift')
-        a, b = find_assign(fn, 'a'), find_assign(fn, 'b')
-        penv = {k: v for k, v in env.items() if k not in ('m', 'n', 'a', 'b', 'h', 'H', 'j')}
+        # roles, not names: the function returns (fft of the kernel vector, pre-chirp, post-chirp); the two coordinate vectors
+        # are the locals defined as fftrange(M, ...) (output) and fftrange(N, ...) (input)
+        (ret,) = find_returns(fn)
+        if not (isinstance(ret, ast.Tuple) and len(ret.elts) == 3 and all(isinstance(x, ast.Name) for x in ret.elts)):
+            raise Untranslatable(f'return value {u(ret)}')
+        Hn, bn, an = (x.id for x in ret.elts)
+        hcalls = [v for v in find_assigns(fn, Hn) if isinstance(v, ast.Call) and v.args and isinstance(v.args[0], ast.Name)]
+        if len(hcalls) != 1:
+            raise Untranslatable(f'{Hn} is not a transform of a named vector')
+        hn = hcalls[0].args[0].id
+        vec = {}
+        for nm, val in env.items():
+            t = u(val).replace(' ', '')
+            if t.startswith('fftrange(M,') or t == 'fftrange(M)':
+                vec['out'] = nm
+            if t.startswith('fftrange(N,') or t == 'fftrange(N)':
+                vec['in'] = nm
+        if set(vec) != {'in', 'out'}:
+            raise Untranslatable('coordinate vectors fftrange(M) / fftrange(N) not found')
+        s_out = sign_of_augassign(fn, vec['out'], 'shift')
+        s_in = sign_of_augassign(fn, vec['in'], 'shift')
+        a, b = find_assign(fn, an), find_assign(fn, bn)
+        penv = {k: v for k, v in env.items() if k not in (vec['out'], vec['in'], an, bn, hn, Hn)}
 
         def chirp_of(nm, e, v):
             """exp(<+-1j * np.pi> * v * v * alpha) in any association / with the prefactor held in a local"""
@@ -247,22 +393,22 @@ def generate(repo, pid='C01', extra_imports=(), extra_opens=(), extra=None, skip
             if mag != 1.0:
                 raise Untranslatable(f'{nm}: magnitude of the imaginary prefactor is {mag}')
             return sgn
-        sa = chirp_of('a', a, 'm')
-        sb = chirp_of('b', b, 'n')
-        hexp = [n for n in ast.walk(fn) if isinstance(n, ast.Assign) and u(n.targets[0]) == 'h'
+        sa = chirp_of(an, a, vec['out'])
+        sb = chirp_of(bn, b, vec['in'])
+        hexp = [n for n in ast.walk(fn) if isinstance(n, ast.Assign) and u(n.targets[0]) == hn
                 and isinstance(n.value, ast.Call) and u(n.value.func).endswith('exp')][0]
         rh = resolve(hexp.value.args[0], penv)
         sh, magh = imag_sign(rh, {})
         names = sorted(x.id for x in ast.walk(rh) if isinstance(x, ast.Name) and x.id != 'np')
-        if names != ['alpha', 'h'] or magh != 1.0:
+        if names != sorted(['alpha', hn]) or magh != 1.0:
             raise Untranslatable('kernel exponent is not (+-i) * alpha * h')
         # norm: b *= alpha / sqrt(alpha)
-        nb = [n for n in ast.walk(fn) if isinstance(n, ast.AugAssign) and u(n.target) == 'b']
-        ok_norm = len(nb) == 1 and isinstance(nb[0].op, ast.Mult) and u(nb[0].value) in (
-            'alpha / np.sqrt(alpha)', 'np.sqrt(alpha)')
-        Hs = u(find_assign(fn, 'H'))
-        rets = [u(r) for r in find_returns(fn)]
-        if not ok_norm or Hs.replace(' ', '') not in ('fft.fft(h)', 'fft.fft(h,K)', 'fft.fft(h,n=K)') or rets != ['(H, b, a)']:
+        nb = [n for n in ast.walk(fn) if isinstance(n, ast.AugAssign) and u(n.target) == bn]
+        ok_norm = len(nb) == 1 and isinstance(nb[0].op, ast.Mult) and u(nb[0].value).replace(' ', '') in (
+            'alpha/np.sqrt(alpha)', 'np.sqrt(alpha)', '(alpha/np.sqrt(alpha))')
+        Hs = u(hcalls[0])
+        rets = [u(ret)]
+        if not ok_norm or Hs.replace(' ', '') not in (f'fft.fft({hn})', f'fft.fft({hn},K)', f'fft.fft({hn},n=K)'):
             # textual facts: an unrecognised shape is "untranslatable" (hand model + widened correspondence), not "false"
             raise Untranslatable(f'norm / return statements not recognised: {[u(n) for n in nb]}, H = {Hs}, return {rets}')
         return (f'def cztSignsGen : CztSigns := {{ shiftOut := {s_out}, shiftIn := {s_in}, chirpA := {sa}, chirpB := {sb}, chirpH := {sh} }}')
@@ -539,57 +685,55 @@ def generate(repo, pid='C01', extra_imports=(), extra_opens=(), extra=None, skip
             shifts[nm] = tuple_index(ops[0].value, bases)
             if shifts[nm][0] != 'shift':
                 raise Untranslatable(f'{nm} shifted by {u(ops[0].value)}')
-        # the four exponentials
-        exps = {}
-        for nm in ('Eout', 'Ein'):
-            vals = find_assigns(sb, nm)
-            if len(vals) != 2:
-                raise Untranslatable(f'{nm} is not assigned in exactly two branches')
-            exps[nm] = vals
-        ifs = [n for n in ast.walk(sb) if isinstance(n, ast.If) and u(n.test) == 'fwd']
-        if len(ifs) != 1:
-            raise Untranslatable('no `if fwd:` branch')
+        # the bases, specialised to fwd = True / False (an `if fwd:` statement, `x if fwd else y`, a hoisted signed factor ...)
+        senv = {}
+        for k, b in bases.items():
+            for i in (0, 1):
+                senv[f'{k}[{i}]'] = {'shape': 'shp', 'Q': 'Q'}.get(b, b) + str(i)
 
-        def parse_exp(e):
-            """exp(c * outer(A, B)[.T]) -> (sign, scale_expr_without_2pi_i, A, B, transposed)"""
-            if not (isinstance(e, ast.Call) and u(e.func).endswith('exp') and len(e.args) == 1):
-                raise Untranslatable(f'not an exponential: {u(e)}')
-            arg = e.args[0]
-            if not (isinstance(arg, ast.BinOp) and isinstance(arg.op, ast.Mult)):
-                raise Untranslatable(f'exponent is not a product: {u(arg)}')
-            outer, coef = arg.right, arg.left
-            transposed = False
-            if isinstance(outer, ast.Attribute) and outer.attr == 'T':
-                transposed, outer = True, outer.value
-            if not (isinstance(outer, ast.Call) and u(outer.func).endswith('outer') and len(outer.args) == 2):
-                raise Untranslatable(f'exponent does not end in outer(...): {u(arg)}')
+        def decide(val):
+            def f_(test):
+                t = u(test).replace(' ', '')
+                if t == 'fwd':
+                    return val
+                if t in ('notfwd', 'fwdisFalse', 'fwd==False'):
+                    return not val
+                return None
+            return f_
+
+        def parse_basis(e):
+            """exp(c * outer(A, B)[.T]) [* sqrt(n)]  ->  (sign, scale term, A, B, transposed, norm^2 term)"""
+            fac = flatten_mul(e)
+            exps_ = [x for x in fac if isinstance(x, ast.Call) and u(x.func).endswith('exp') and len(x.args) == 1]
+            sq = [x for x in fac if isinstance(x, ast.Call) and u(x.func).endswith('sqrt') and len(x.args) == 1]
+            if len(exps_) != 1 or len(sq) != 1 or len(fac) != 2:
+                raise Untranslatable(f'basis is not exp(...) * sqrt(...): {u(e)[:90]}')
+            afac = flatten_mul(exps_[0].args[0])
+            outers = []
+            for x in afac:
+                y, tr_ = (x.value, True) if (isinstance(x, ast.Attribute) and x.attr == 'T') else (x, False)
+                if isinstance(y, ast.Call) and u(y.func).endswith('outer') and len(y.args) == 2:
+                    outers.append((x, y, tr_))
+            if len(outers) != 1:
+                raise Untranslatable(f'exponent has no single outer(...) factor: {u(exps_[0].args[0])[:90]}')
+            rest = [x for x in afac if x is not outers[0][0]]
+            coef = rest[0]
+            for x in rest[1:]:
+                coef = ast.BinOp(left=coef, op=ast.Mult(), right=x)
+            # division is not a product factor: `c / Na * mn * outer` flattens to [c / Na, mn, outer] - fine
             sgn, mag = imag_sign(coef, {})
             if mag != 2.0 or 'np.pi' not in u(coef):
                 raise Untranslatable(f'kernel prefactor is not 2*pi*i: {u(coef)}')
-            # scale = coef / (+-2j*pi): replace the imaginary literal by 1 and np.pi by 1
-            class Strip(ast.NodeTransformer):
-                def visit_Constant(self, node):
-                    return ast.Constant(value=1) if isinstance(node.value, complex) else node
-
-                def visit_UnaryOp(self, node):
-                    self.generic_visit(node)
-                    if isinstance(node.op, ast.USub) and isinstance(node.operand, ast.Constant) and node.operand.value == 1:
-                        return ast.Constant(value=1)
-                    return node
-
-                def visit_Attribute(self, node):
-                    return ast.Constant(value=1) if u(node) == 'np.pi' else node
-            scale = Strip().visit(ast.parse(u(coef), mode='eval').body)
-            scale = resolve(scale, env)
-            senv = {}
-            for k, b in bases.items():
-                for i in (0, 1):
-                    senv[f'{k}[{i}]'] = {'shape': 'shp', 'Q': 'Q'}.get(b, b) + str(i)
-            return sgn, Tr(senv, mode='num').expr(scale), u(outer.args[0]), u(outer.args[1]), transposed
-        body_f = {u(s.targets[0]): s.value for s in ifs[0].body if isinstance(s, ast.Assign)}
-        body_i = {u(s.targets[0]): s.value for s in ifs[0].orelse if isinstance(s, ast.Assign)}
-        pf = {k: parse_exp(v) for k, v in body_f.items()}
-        pi_ = {k: parse_exp(v) for k, v in body_i.items()}
+            scale = Tr(senv, mode='num').expr(strip_i_pi(coef))
+            _, y, tr_ = outers[0]
+            return sgn, scale, u(y.args[0]), u(y.args[1]), tr_, Tr(senv, mode='num').expr(sq[0].args[0])
+        parsed = {}
+        for val in (True, False):
+            e_ = seq_env(sb.body, assume=decide(val), stop=set(kname))
+            if 'Eout' not in e_ or 'Ein' not in e_:
+                raise Untranslatable('Eout / Ein not defined on the cache-miss path')
+            parsed[val] = {k: parse_basis(e_[k]) for k in ('Eout', 'Ein')}
+        pf, pi_ = parsed[True], parsed[False]
         for k in ('Eout', 'Ein'):
             if pf[k][1:] != pi_[k][1:] or pf[k][0] != -pi_[k][0]:
                 raise Untranslatable(f'forward and inverse {k} differ by more than the sign')
@@ -599,10 +743,10 @@ def generate(repo, pid='C01', extra_imports=(), extra_opens=(), extra=None, skip
             o = u(find_assign(f, 'out')).replace('(', '').replace(')', '')
             if o != 'Eout @ ary @ Ein':
                 raise Untranslatable(f'{meth}: out = {o}')
-        so, sc_o, A, B, T = pf['Eout']
+        so, sc_o, A, B, T, nsq_o = pf['Eout']
         # Eout must be (out, in): outer(in_vec, out_vec).T   or outer(out_vec, in_vec)
         in0, out0 = (A, B) if T else (B, A)
-        si, sc_i, A, B, T = pf['Ein']
+        si, sc_i, A, B, T, nsq_i = pf['Ein']
         # Ein must be (in, out): outer(in_vec, out_vec) or outer(out_vec, in_vec).T
         in1, out1 = (B, A) if T else (A, B)
         for (vi, vo) in ((in0, out0), (in1, out1)):
@@ -610,21 +754,7 @@ def generate(repo, pid='C01', extra_imports=(), extra_opens=(), extra=None, skip
                 raise Untranslatable('a basis pairs vectors of the wrong kind / different shift components')
         w0 = f'{{ lenIn := {lens[in0][1]}, lenOut := {lens[out0][1]}, shift := {shifts[in0][1]} }}'
         w1 = f'{{ lenIn := {lens[in1][1]}, lenOut := {lens[out1][1]}, shift := {shifts[in1][1]} }}'
-        # normalisation: Ein *= normy ; Eout *= normx ; normy = sqrt(alphay) ...
-        nenv = dict(env)
-        norms = {}
-        for nm in ('Ein', 'Eout'):
-            ops = [n for n in ast.walk(sb) if isinstance(n, ast.AugAssign) and u(n.target) == nm]
-            if len(ops) != 1 or not isinstance(ops[0].op, ast.Mult):
-                raise Untranslatable(f'{nm} is not scaled exactly once')
-            r = resolve(ops[0].value, {k: v for k, v in nenv.items() if k.startswith('norm')})
-            if not (isinstance(r, ast.Call) and u(r.func).endswith('sqrt')):
-                raise Untranslatable(f'{nm} norm is not a square root: {u(r)}')
-            senv = {}
-            for k, b in bases.items():
-                for i in (0, 1):
-                    senv[f'{k}[{i}]'] = {'shape': 'shp', 'Q': 'Q'}.get(b, b) + str(i)
-            norms[nm] = Tr(senv, mode='num').expr(resolve(r.args[0], env))
+        norms = {'Eout': nsq_o, 'Ein': nsq_i}
         return (f'def mdftEoutWiring : AxisWiring := {w0}\ndef mdftEinWiring : AxisWiring := {w1}\n'
                 f'def mdftEoutScale {{K : Type}} [Num K] (shp0 shp1 Q0 Q1 : K) : K := {sc_o}\n'
                 f'def mdftEinScale {{K : Type}} [Num K] (shp0 shp1 Q0 Q1 : K) : K := {sc_i}\n'
@@ -740,18 +870,26 @@ def fft_route_items(g, ft, pr):
         def build():
             fn = get_def(pr, name)
             (ret,) = find_returns(fn)
-            env = {k: v for k, v in local_env(fn).items() if k != 'padded_wavefront'}
-            r = resolve(ret, env)
-            # padded_wavefront = pad2d(wavefunction, Q) if Q != 1 else wavefunction
-            ifs = [n for n in fn.body if isinstance(n, ast.If)]
-            ok_pad = False
-            if len(ifs) == 1 and u(ifs[0].test).replace(' ', '') in ('Q!=1', 'notQ==1', '1!=Q'):
-                b = [u(x).replace(' ', '') for x in ifs[0].body]
-                o = [u(x).replace(' ', '') for x in ifs[0].orelse]
-                ok_pad = b in (['padded_wavefront=pad2d(wavefunction,Q)'], ['padded_wavefront=pad2d(wavefunction,Q=Q)']) \
-                    and o == ['padded_wavefront=wavefunction']
-            if not ok_pad:
+            params = [a.arg for a in fn.args.args]
+            if len(params) < 2:
+                raise Untranslatable(f'{name}: parameters {params}')
+            arr, qn = params[0], params[1]
+            # the padded array: the local defined by a two-way choice on `Q != 1` (if/else statement or conditional expression)
+            padname = None
+            for nm in {x.id for x in ast.walk(fn) if isinstance(x, ast.Name) and isinstance(x.ctx, ast.Store)}:
+                try:
+                    test, a_, b_ = cond_def(fn, nm)
+                except Untranslatable:
+                    continue
+                if test in (f'{qn}!=1', f'1!={qn}') and a_ in (f'pad2d({arr},{qn})', f'pad2d({arr},Q={qn})') and b_ == arr:
+                    padname = nm
+                elif test in (f'{qn}==1', f'1=={qn}') and b_ in (f'pad2d({arr},{qn})', f'pad2d({arr},Q={qn})') and a_ == arr:
+                    padname = nm
+            if padname is None:
                 raise Untranslatable(f'{name}: padding statements not recognised')
+            r = seq_env(fn.body, stop={padname})
+            r = Subst({k: v for k, v in r.items()}).visit(ast.parse(u(ret), mode='eval').body) if isinstance(ret, ast.Name) else ret
+            r = ast.parse(u(r), mode='eval').body
 
             def shift_kind(c):
                 if isinstance(c, ast.Call) and u(c.func).split('.')[-1] in ('fftshift', 'ifftshift') and len(c.args) == 1 \
@@ -771,7 +909,7 @@ def fft_route_items(g, ft, pr):
             if normv not in (None, 'backward', 'ortho'):
                 raise Untranslatable(f'{name}: norm={normv!r}')
             inner = shift_kind(mid.args[0])
-            if u(mid.args[0].args[0]) != 'padded_wavefront':
+            if u(mid.args[0].args[0]) != padname:
                 raise Untranslatable(f'{name}: transform of {u(mid.args[0].args[0])}')
             b = lambda x: 'true' if x else 'false'
             return (f'def {name}FlagsGen : RouteFlags := {{ innerIsIfftshift := {b(inner == "ifftshift")}, '
